@@ -109,6 +109,24 @@ def pmap(func, args, jobs=None, chunksize=1):
     if jobs <= 1 or len(args) <= 1:
         with quiet():
             return [func(a) for a in args]
+    if jobs < NPROC:
+        # limited parallelism (fork-heavy jobs): keep at most `jobs` in flight
+        pl = get_pool()
+        pending, results, it = {}, [None] * len(args), iter(enumerate(args))
+        import time as _t
+        done = False
+        while not done or pending:
+            while not done and len(pending) < jobs:
+                try:
+                    i, a = next(it)
+                except StopIteration:
+                    done = True
+                    break
+                pending[i] = pl.apply_async(_call, ((func, a),))
+            for i in [i for i, r in pending.items() if r.ready()]:
+                results[i] = pending.pop(i).get()
+            _t.sleep(0.02)
+        return results
     return get_pool().map(_call, [(func, a) for a in args], chunksize=chunksize)
 
 
